@@ -20,7 +20,10 @@ MPT_STRUCT(node)
 #if defined(__cplusplus)
     public:
 	node(metatype *ref = 0);
+	node(const node &);
 	~node();
+	
+	node &operator=(const node &);
 	
 	void set_metatype(metatype *mt);
 	struct node &operator=(const reference<metatype> &);
@@ -147,6 +150,19 @@ inline node &node::operator = (const reference<metatype> &other)
     reference<metatype> m(other);
     if (_meta) _meta->unref();
     _meta = m.detach();
+    return *this;
+}
+/* copy has own value reference and name, links and children stay with original */
+inline node::node(const node &from) : _meta(0), next(0), prev(0), parent(0), children(0), ident(from.ident)
+{
+    *this = from.meta();
+}
+inline node &node::operator = (const node &from)
+{
+    if (this != &from) {
+        *this = from.meta();
+        ident = from.ident;
+    }
     return *this;
 }
 inline void node::set_metatype(metatype *ref)
